@@ -17,7 +17,7 @@ as plain file, index.html and page-k.html, in sibling directories whose names ex
 (prefix in {'', '/', '//', '@h', 'h:80', 'http://h', 'http://h:80'} + segments from {'..', '.', '', tree directory paths, tree names, secret names, ancestor names, %2e%2e, %2E%2E, .%2e, %2e., ..%2f, ..., ..;, ..\\\\} \
 + optional trailing slash + optional ?q / #f), biased so that half of the targets climb exactly to a level and end on a secret planted there, x optional Range header x both entry points. \
 Oracle: (a) the response contains no 12-byte window of any secret's content; (b) origin-form targets whose running depth goes below zero are answered with status >= 400. \
-Non-trivial = target contains '..' (raw or encoded) or is not origin-form; distinct by (tree, target, range, entry point).",
+ A quarter of the production-entry targets of every tree are sent to the real release binary (started with the tree's root as working directory) over loopback instead of Server::process on the mock transport (class production-entry-real-binary); the oracle is the same. Non-trivial = target contains '..' (raw or encoded) or is not origin-form; distinct by (tree, target, range, entry point).",
         &["secrets consist only of their unique marker text, so a 12-byte window of a secret occurring in a response is a disclosure (coincidence probability ~1e-14 per window pair)",
           "Range slices shorter than 12 bytes of a secret would escape (a); generated ranges are at least 12 bytes long or open-ended",
           "the in-process route calls the real Server::process / Server::process_request with cwd = served root"],
@@ -40,7 +40,9 @@ pub enum Seg {
 #[derive(Clone, Debug, Serialize, Deserialize, PartialEq, Eq, Hash)]
 pub struct Target { pub prefix: u8, pub segs: Vec<Seg>, pub trailing_slash: bool, pub suffix: u8, pub range: Option<String>, pub legacy: bool,
     /// bit i set: the i-th separator between segments is spelt as an encoded separator (ENC_SEPS[enc_kind]) instead of '/'
-    #[serde(default)] pub enc_sep: u16, #[serde(default)] pub enc_kind: u8 }
+    #[serde(default)] pub enc_sep: u16, #[serde(default)] pub enc_kind: u8,
+    /// sent to the real binary over loopback (production entry only) instead of Server::process on the mock transport
+    #[serde(default)] pub binary: bool }
 pub const ENC_SEPS: [&str; 6] = ["%2F", "%2f", "%5C", "\\", "%2F", "%252F"];
 
 #[derive(Clone, Debug, Serialize, Deserialize)]
@@ -98,8 +100,8 @@ fn target_strategy(levels: usize, has_outside_links: bool) -> impl Strategy<Valu
     let random = proptest::collection::vec(seg, 1..=10);
     let segs = if has_outside_links { prop_oneof![5 => climb, 2 => through_link, 3 => random].boxed() } else { prop_oneof![6 => climb, 4 => random].boxed() };
     let enc = prop_oneof![7 => Just(0u16), 2 => any::<u16>(), 1 => Just(u16::MAX)];
-    (0u8..16, segs, proptest::bool::weighted(0.2), 0u8..6, range_strategy(), proptest::bool::weighted(0.3), enc, 0u8..6)
-        .prop_map(|(prefix, segs, trailing_slash, suffix, range, legacy, enc_sep, enc_kind)| Target { prefix, segs, trailing_slash, suffix, range, legacy, enc_sep, enc_kind })
+    (0u8..16, segs, proptest::bool::weighted(0.2), 0u8..6, range_strategy(), proptest::bool::weighted(0.3), enc, 0u8..6, proptest::bool::weighted(0.25))
+        .prop_map(|(prefix, segs, trailing_slash, suffix, range, legacy, enc_sep, enc_kind, binary)| Target { prefix, segs, trailing_slash, suffix, range, legacy, enc_sep, enc_kind, binary: binary && !legacy })
 }
 
 /// Render the target text against a materialised tree.
@@ -231,11 +233,11 @@ pub fn eval(ctx: &Ctx, p: &Prepared, t: &Target) -> Verdict {
     if let Some(r) = &t.range { req.push_str(&format!("Range: {}\r\n", r)); }
     req.push_str("\r\n");
     let entry = if t.legacy { Entry::Legacy } else { Entry::Process };
-    let o = inproc::serve(req.as_bytes(), Transport::default(), 10000, AppKind::Real, entry);
+    let o = inproc::serve_routed(req.as_bytes(), t.binary, entry);
     let origin_form = target.starts_with('/') && !target.starts_with("//");
     let has_dotdot = target.contains("..") || target.to_lowercase().contains("%2e");
     let mut classes = vec![];
-    if t.legacy { classes.push("legacy-entry"); } else { classes.push("production-entry"); }
+    if t.legacy { classes.push("legacy-entry"); } else if t.binary { classes.push("production-entry-real-binary"); } else { classes.push("production-entry"); }
     if t.range.is_some() { classes.push("with-range"); }
     if !origin_form { classes.push("non-origin-form"); }
     let climbs = origin_form && climbs_above(&target);
@@ -281,8 +283,11 @@ pub fn run(ctx: &Ctx) {
         let p = match prepare(&spec) { Ok(p) => p, Err(e) => { ctx.inconclusive(&format!("tree materialisation failed: {}", e)); continue; } };
         if !p.tree.outside_dir_links.is_empty() { ctx.class("tree-with-owner-link-to-outside-dir"); }
         ctx.class(match p.tree.ancestor_names.len() { 0..=2 => "tree-levels-above<=2", _ => "tree-levels-above>=3" });
+        if let Err(e) = inproc::binary_start(&p.tree.root) { ctx.inconclusive(&format!("real binary did not start: {}", e)); }
         let strat = (Just(spec.clone()), target_strategy(p.tree.ancestor_names.len(), !p.tree.outside_dir_links.is_empty())).prop_map(|(tree, target)| Case { tree, target });
         ctx.prop_salted("targets", &format!("#{}", i), per_tree, strat, |c| eval(ctx, &p, &c.target));
+        inproc::binary_stop();
+        for t in inproc::binary_trouble() { ctx.inconclusive(&format!("exchange with the real binary did not complete: {}", t)); }
         if let Some(h) = &home { let _ = std::env::set_current_dir(h); }
         if *ctx.failed.borrow() { break; }
     }
@@ -291,7 +296,7 @@ pub fn run(ctx: &Ctx) {
 pub fn replay(ctx: &Ctx, _section: &str, case: &Value) -> Verdict {
     crate::fw::inproc::init_env();
     match serde_json::from_value::<Case>(case.clone()) {
-        Ok(c) => match prepare(&c.tree) { Ok(p) => eval(ctx, &p, &c.target), Err(e) => Verdict::fail("replay-tree-failed", e.to_string()) },
+        Ok(c) => match prepare(&c.tree) { Ok(p) => { if c.target.binary { if let Err(e) = inproc::binary_start(&p.tree.root) { return Verdict::fail("replay-binary-did-not-start", e); } } let v = eval(ctx, &p, &c.target); inproc::binary_stop(); v }, Err(e) => Verdict::fail("replay-tree-failed", e.to_string()) },
         Err(e) => Verdict::fail("replay-unreadable", e.to_string()),
     }
 }
